@@ -45,6 +45,10 @@ type differ struct {
 }
 
 func diffSlice(a, b starlark.Sliceable, depth int) (*SliceableDiff, error) {
+	// a and b may be swapped below so that a is the shorter sequence; the diff's sides are the
+	// operands in the order given.
+	old, new := a, b
+
 	m, n := a.Len(), b.Len()
 	reverse := false
 	if m >= n {
@@ -67,7 +71,7 @@ func diffSlice(a, b starlark.Sliceable, depth int) (*SliceableDiff, error) {
 		return nil, err
 	}
 	return &SliceableDiff{
-		valueDiff: valueDiff{old: a, new: b},
+		valueDiff: valueDiff{old: old, new: new},
 		edits:     edits,
 	}, nil
 }
